@@ -250,6 +250,10 @@ def get_logical_instruction_at_offset(
         for start, end, target, _, _ in exception_entries:
             for i in range(start, end):
                 labels.append(target)
+            if opc.version_tuple >= (3, 13):
+                # From 3.13 on dis also labels the two ends of the protected range.
+                labels.append(start)
+                labels.append(end)
 
     # label_maps = get_jump_target_maps(bytecode, opc)
 
@@ -474,6 +478,10 @@ def get_instructions_bytes(
         for start, end, target, _, _ in exception_entries:
             for i in range(start, end):
                 labels.append(target)
+            if opc.version_tuple >= (3, 13):
+                # From 3.13 on dis also labels the two ends of the protected range.
+                labels.append(start)
+                labels.append(end)
 
     n = len(bytecode)
     offset = 0
